@@ -3,6 +3,7 @@
 package work
 
 import (
+	"bytes"
 	"encoding/binary"
 	"encoding/json"
 	"fmt"
@@ -55,7 +56,8 @@ type Ctx struct {
 	From     int64
 	Skip     map[int64]bool
 	Deadline time.Time
-	Only     int64 // >=0: execute only this case index (replay)
+	Only     int64  // >=0: execute only this case index (replay)
+	Match    string // development aid: execute only cases whose description contains it
 	Verbose  bool
 	// SelfSharded: the harness splits its space itself (by c.Shard/c.NShards);
 	// Begin then does not filter by index.
@@ -105,6 +107,14 @@ func (c *Ctx) Quick() bool { return c.Tier != "thorough" }
 func (c *Ctx) Begin(desc []byte) bool {
 	i := c.idx
 	c.idx++
+	if c.Match != "" {
+		// development aid: run exactly the cases whose description contains Match
+		if !bytes.Contains(desc, []byte(c.Match)) {
+			return false
+		}
+		c.res.Executions++
+		return true
+	}
 	if c.Only >= 0 {
 		if i != c.Only {
 			return false
